@@ -56,7 +56,7 @@ func c13OwnCheck(ctx *vfCtx, c c13OwnCase) {
 	var seen []string
 	var status []int
 	var dest spec.ServerName
-	srv := httptest.NewUnstartedServer(http.HandlerFunc(func(rw http.ResponseWriter, req *http.Request) {
+	srv, lerr := c13OwnListen(http.HandlerFunc(func(rw http.ResponseWriter, req *http.Request) {
 		got, resp := VerifyHTTPRequest(req, time.Now(), dest, nil, &c13Verifier{keys: table})
 		mu.Lock()
 		status = append(status, resp.Code)
@@ -69,6 +69,10 @@ func c13OwnCheck(ctx *vfCtx, c c13OwnCase) {
 		rw.Header().Set("Content-Type", "application/json")
 		_, _ = rw.Write([]byte(`{}`))
 	}))
+	if lerr != nil {
+		ctx.Unjudged("no listener on the loopback interface: " + lerr.Error())
+		return
+	}
 	srv.Config.ErrorLog = nil
 	srv.StartTLS()
 	defer srv.Close()
@@ -111,6 +115,17 @@ func c13OwnCheck(ctx *vfCtx, c c13OwnCase) {
 	if seen[0] != want {
 		ctx.Fail("C13/own-transport/uri-differs", "the destination accepted the request but reports URI %q; the client signed %q", seen[0], want)
 	}
+}
+
+// c13OwnListen opens a listener on the loopback interface (httptest panics where there is none: that is the
+// environment's matter, not the library's)
+func c13OwnListen(h http.Handler) (srv *httptest.Server, err error) {
+	defer func() {
+		if r := recover(); r != nil {
+			err = fmt.Errorf("%v", r)
+		}
+	}()
+	return httptest.NewUnstartedServer(h), nil
 }
 
 func init() {
